@@ -26,9 +26,11 @@ import (
 //	fullerr   fill the buffer completely and return an error as well
 type c19case struct {
 	Fn     string   // genkey | signhashed | signza | sign
-	Cands  []string // candidate names for successive 32-byte draws
+	Cands  []string // candidate names for successive 32-byte draws ("hex:<64 hex digits>" for an explicit value)
 	Script []string // answers for successive Read calls; after the script: "full"
 	Shape  string
+	E, D   string // optional overrides (hex) of digest and private key, used by the solved rejection kinds
+	Reject []int  // draw indexes that a correct signer rejects for reasons other than the k-range (r=0, r+k=n, s=0)
 }
 
 var errInjected = errors.New("injected randomness failure")
@@ -128,11 +130,21 @@ func c19eval(r *vx.R, c c19case) {
 	cm := c19cands()
 	var data []byte
 	for _, nm := range c.Cands {
-		data = append(data, b32(cm[nm])...)
+		if len(nm) > 4 && nm[:4] == "hex:" {
+			data = append(data, vx.UnHex(nm[4:])...)
+		} else {
+			data = append(data, b32(cm[nm])...)
+		}
 	}
 	d := b32(modN(bi(vx.Fill("c19d", 32))))
-	px, py := sm2ref.Pub(bi(d))
 	e := vx.Fill("c19e", 32)
+	if c.D != "" {
+		d = vx.UnHex(c.D)
+	}
+	if c.E != "" {
+		e = vx.UnHex(c.E)
+	}
+	px, py := sm2ref.Pub(bi(d))
 	za := vx.Fill("c19za", 32)
 	id := []byte("1234567812345678")
 	msg := []byte("message digest")
@@ -142,12 +154,19 @@ func c19eval(r *vx.R, c c19case) {
 	sim := &scriptedReader{data: data, script: c.Script}
 	wantErr := false
 	var accepted []byte
+	rejectDraw := map[int]bool{}
+	for _, i := range c.Reject {
+		rejectDraw[i] = true
+	}
 	for draws := 0; draws < 64; draws++ {
 		buf := make([]byte, 32)
 		_, rerr := io.ReadFull(sim, buf)
 		if rerr != nil {
 			wantErr = true
 			break
+		}
+		if rejectDraw[draws] {
+			continue
 		}
 		v := bi(buf)
 		if c.Fn == "genkey" {
@@ -212,7 +231,7 @@ func c19eval(r *vx.R, c c19case) {
 }
 
 func TestVX_C19(t *testing.T) {
-	r := vx.Begin("C19", "failing-rand", "scripted io.Reader: per Read call one answer from {full; short k (k in 1,16,31); zero bytes nil; k bytes+error (k in 0,1,16,31); k bytes+EOF; full+error}. Enumerated: every position of the first failure = (draw index j in 0..3 after j rejected candidates from {0,n,n-1(keygen),max}) x (byte offset 0,1,16,31 via a preceding short read, and full+error) x failure kind; every script of <=2 non-failing deviations (short/zero reads) without error; GenerateKey(nil). Entry points GenerateKey, SignHashed, SignZa, Sign. Oracle: io.ReadFull semantics simulated on the same script: failure before a complete acceptable candidate => err!=nil and no public key/signature; otherwise output identical to a perfect reader on the same bytes (and to sm2ref). Shape=(entry, rejected prefix, failure kind, offset)")
+	r := vx.Begin("C19", "failing-rand", "scripted io.Reader: per Read call one answer from {full; short k (k in 1,16,31); zero bytes nil; k bytes+error (k in 0,1,16,31); k bytes+EOF; full+error}. Enumerated: every position of the first failure = (draw index j in 0..3 after j rejected candidates from {0,n,n-1(keygen),max}) x (byte offset 0,1,16,31 via a preceding short read, and full+error) x failure kind; every script of <=2 non-failing deviations (short/zero reads) without error; GenerateKey(nil). Entry points GenerateKey, SignHashed, SignZa, Sign; for SignHashed also after a candidate rejected late (r=0, r+k=n, s=0 - digest resp. key solved). Oracle: io.ReadFull semantics simulated on the same script: failure before a complete acceptable candidate => err!=nil and no public key/signature; otherwise output identical to a perfect reader on the same bytes (and to sm2ref). Shape=(entry, rejected prefix, failure kind, offset)")
 	defer r.End()
 	selfCheck()
 	if raw, ok := vx.Replay("failing-rand"); ok {
@@ -271,7 +290,7 @@ func TestVX_C19(t *testing.T) {
 					if f == "fullerr" && off > 0 {
 						// full+error after a short read completes the buffer: io.ReadFull drops the error -> next draw decides
 					}
-					run(c19case{fn, cands, script, fmt.Sprintf("rej%v:%s:off%d", pre, f, off)})
+					run(c19case{Fn: fn, Cands: cands, Script: script, Shape: fmt.Sprintf("rej%v:%s:off%d", pre, f, off)})
 				}
 			}
 			// failure in the middle of a rejected candidate's successor is covered above; failure *before* any draw is j=0
@@ -286,7 +305,7 @@ func TestVX_C19(t *testing.T) {
 					s1[i] = "full"
 				}
 				s1[p1] = d1
-				run(c19case{fn, cands, s1, fmt.Sprintf("dev1:%d:%s", p1, d1)})
+				run(c19case{Fn: fn, Cands: cands, Script: s1, Shape: fmt.Sprintf("dev1:%d:%s", p1, d1)})
 				for p2 := p1 + 1; p2 < 5; p2++ {
 					for _, d2 := range devs {
 						s2 := make([]string, p2+1)
@@ -294,7 +313,7 @@ func TestVX_C19(t *testing.T) {
 							s2[i] = "full"
 						}
 						s2[p1], s2[p2] = d1, d2
-						run(c19case{fn, cands, s2, fmt.Sprintf("dev2:%d:%s:%d:%s", p1, d1, p2, d2)})
+						run(c19case{Fn: fn, Cands: cands, Script: s2, Shape: fmt.Sprintf("dev2:%d:%s:%d:%s", p1, d1, p2, d2)})
 					}
 				}
 			}
@@ -305,7 +324,43 @@ func TestVX_C19(t *testing.T) {
 			for i := range c {
 				c[i] = rejs[fn][i%len(rejs[fn])]
 			}
-			run(c19case{fn, c, nil, fmt.Sprintf("ends-after-%d", j)})
+			run(c19case{Fn: fn, Cands: c, Script: nil, Shape: fmt.Sprintf("ends-after-%d", j)})
+		}
+	}
+	// rejections that depend on the key and the digest (r = 0, r + k = n, s = 0), solved as in C02: the source fails at
+	// every position of the redraw that follows such a late rejection
+	{
+		k1 := modN(bi(vx.Fill("c19sk1", 32)))
+		x1 := sm2ref.BaseMul(k1).X
+		dflt := modN(bi(vx.Fill("c19d", 32)))
+		eFree := bi(vx.Fill("c19e", 32))
+		type kind struct {
+			name string
+			e, d *big.Int
+		}
+		r1 := modN(new(big.Int).Add(eFree, x1))
+		kinds := []kind{
+			{"R0", modN(new(big.Int).Neg(x1)), dflt},
+			{"RK", modN(new(big.Int).Sub(new(big.Int).Sub(bigN, k1), x1)), dflt},
+			{"S0", eFree, modN(new(big.Int).Mul(k1, invN(r1)))},
+		}
+		for _, kd := range kinds {
+			if !sm2ref.ValidKey(kd.d) {
+				continue
+			}
+			cands := []string{"hex:" + vx.Hex(b32(k1)), "ok1", "ok2"}
+			for _, f := range fails {
+				for _, off := range []int{0, 1, 16, 31} {
+					script := []string{"full"}
+					if off > 0 {
+						script = append(script, fmt.Sprintf("short:%d", off))
+					}
+					script = append(script, f)
+					run(c19case{Fn: "signhashed", Cands: cands, Script: script, Shape: fmt.Sprintf("late-reject:%s:%s:off%d", kd.name, f, off), E: vx.Hex(b32(kd.e)), D: vx.Hex(b32(kd.d)), Reject: []int{0}})
+				}
+			}
+			// and without any failure: the next candidate must be used
+			run(c19case{Fn: "signhashed", Cands: cands, Script: nil, Shape: "late-reject:" + kd.name + ":nofail", E: vx.Hex(b32(kd.e)), D: vx.Hex(b32(kd.d)), Reject: []int{0}})
 		}
 	}
 	if vx.MineIdx(0) {
